@@ -28,6 +28,8 @@ fn variant<E: std::fmt::Debug>(e: &E) -> String {
 fn main() {
     quiet_panics();
     let data = arg("--data", "data");
+    let prop = arg("--prop", "C04");
+    let mut discovery_checks = 0usize;
     let lib = Lib::load(&data, "wac").expect("library");
     let pool: Value = serde_json::from_str(&std::fs::read_to_string(format!("{data}/wacpool.json")).unwrap()).unwrap();
     let stmts: Vec<String> = pool["statements"].as_array().unwrap().iter().map(|s| s.as_str().unwrap().to_string()).collect();
@@ -76,6 +78,48 @@ fn main() {
             }
             Ok(Ok(d)) => d,
         };
+        if prop == "C17" {
+            // package discovery finds every package resolution asks for: resolving with only the
+            // discovered packages gives the same result as resolving with every package there is
+            for with_target in [false, true] {
+                let text2 = if with_target { text.replacen(";\n", " targets ns:p/w1;\n", 1) } else { text.clone() };
+                let Ok(doc) = Document::parse(&text2) else { continue };
+                let outcome = |only: Option<&Vec<String>>| -> String {
+                    let mut m: IndexMap<BorrowedPackageKey, Vec<u8>> = IndexMap::new();
+                    for (name, bytes) in &pkg_bytes {
+                        if only.map(|o| o.contains(name)).unwrap_or(true) {
+                            m.insert(BorrowedPackageKey::from_name_and_version(name, None), bytes.clone());
+                        }
+                    }
+                    match guarded(|| doc.resolve(m)) {
+                        Err(p) => format!("panic: {p}"),
+                        Ok(Ok(_)) => "ok".to_string(),
+                        Ok(Err(e)) => variant(&e),
+                    }
+                };
+                let discovered: Vec<String> = match guarded(|| wac_resolver::packages(&doc)) {
+                    Err(p) => {
+                        emit(&mut so, "discovery", format!("packages() panicked: {p}"));
+                        continue;
+                    }
+                    Ok(Err(e)) => {
+                        // (discovery may refuse a document resolution refuses too, e.g. `new` of the own package)
+                        if outcome(None) == "ok" {
+                            emit(&mut so, "discovery", format!("packages() failed on a document that resolves: {e}"));
+                        }
+                        continue;
+                    }
+                    Ok(Ok(keys)) => keys.keys().map(|k| k.name.to_string()).collect(),
+                };
+                discovery_checks += 1;
+                let (all, only) = (outcome(None), outcome(Some(&discovered)));
+                if all != only {
+                    emit(&mut so, "discovery", format!(
+                        "with every package available resolution gives {all}; with the discovered packages {discovered:?} only it gives {only} (targets clause: {with_target})"));
+                }
+            }
+            continue;
+        }
         let mut packages: IndexMap<BorrowedPackageKey, Vec<u8>> = IndexMap::new();
         for (name, bytes) in &pkg_bytes {
             packages.insert(BorrowedPackageKey::from_name_and_version(name, None), bytes.clone());
@@ -159,5 +203,5 @@ fn main() {
         }
     }
     writeln!(so, "{}", json!({"summary": true, "programs": programs, "ok_programs": ok_programs, "rejected": rejected,
-        "encodings_decoded": encoded, "findings": findings})).unwrap();
+        "encodings_decoded": encoded, "discovery_checks": discovery_checks, "findings": findings})).unwrap();
 }
